@@ -251,6 +251,32 @@ def is_type_context(text, pos, op):
     return False
 
 
+_REG_ENUMS = {}
+
+
+def reg_enums(repo):
+    """the fieldless `pub enum XRegisterNumbers { V = n, .. }` of minidump-common/src/format.rs: name -> {variant: discriminant}"""
+    if repo in _REG_ENUMS:
+        return _REG_ENUMS[repo]
+    src = re.sub(r"//[^\n]*", "", open(os.path.join(repo, "minidump-common/src/format.rs")).read())
+    res = {}
+    for m in re.finditer(r"pub enum (\w+RegisterNumbers)\s*\{([^}]*)\}", src):
+        vals = {}
+        for item in m.group(2).split(","):
+            item = re.sub(r"#\[[^\]]*\]", "", item).strip()
+            if not item:
+                continue
+            mm = re.fullmatch(r"(\w+)\s*=\s*(0x[0-9a-fA-F_]+|\d[\d_]*)", item)
+            if not mm:
+                die("format.rs: enum %s has a variant without a literal discriminant: %r" % (m.group(1), item))
+            vals[mm.group(1)] = int(mm.group(2).replace("_", ""), 0)
+        res[m.group(1)] = vals
+    if not res:
+        die("format.rs: no *RegisterNumbers enum found")
+    _REG_ENUMS[repo] = res
+    return res
+
+
 def scan_file(repo, rel):
     path = os.path.join(repo, rel)
     src = open(path, encoding="utf-8").read()
@@ -313,6 +339,35 @@ def scan_file(repo, rel):
                     if not bm:
                         die("%s:%d: constant index on an expression that is not a field path: `%s`" % (rel, l, norm[:100]))
                     site["cidx"] = (bm.group(1), int(inner.replace("usize", "")))
+                # round 5, second pass: three more shapes whose index is a compile-time constant
+                #   base[..N], base[N..]                   a range with a literal bound: N <= len, recorded as the index N - 1
+                #   base[(md::)?XRegisterNumbers::V as usize]  the discriminant of a fieldless enum of format.rs; recorded under `base@XRegisterNumbers`
+                #   base[*reg as usize] inside `for reg in K` with `const K: &[XRegisterNumbers]`: any discriminant of that enum (the largest is recorded)
+                em = re.fullmatch(r"(?:md::)?(\w+RegisterNumbers)::(\w+) as usize", inner)
+                rm = re.fullmatch(r"\.\.(\d+)", inner) or re.fullmatch(r"(\d+)\.\.", inner)    # `[..N]` and `[N..]` both need N <= len
+                if rm and bm and int(rm.group(1)) > 0:
+                    site["cidx"] = (bm.group(1), int(rm.group(1)) - 1)
+                elif em:
+                    enums = reg_enums(repo)
+                    if em.group(1) not in enums or em.group(2) not in enums[em.group(1)]:
+                        die("%s:%d: index by an enum constant that format.rs does not define: `%s`" % (rel, l, inner))
+                    if not bm:
+                        die("%s:%d: enum-constant index on an expression that is not a field path: `%s`" % (rel, l, norm[:100]))
+                    site["cidx"] = (bm.group(1) + "@" + em.group(1), enums[em.group(1)][em.group(2)])
+                elif re.fullmatch(r"\*(\w+) as usize", inner) and bm:
+                    var = re.fullmatch(r"\*(\w+) as usize", inner).group(1)
+                    before = text[max(0, pos - 2500):pos]
+                    fm = None
+                    for fm in re.finditer(r"for %s in (\w+)\s*\{" % re.escape(var), before):
+                        pass
+                    if fm:
+                        cm = re.search(r"const %s: &\[(\w+)\] = &\[([^\]]*)\];" % re.escape(fm.group(1)), before)
+                        enums = reg_enums(repo)
+                        if cm and cm.group(1) in enums:
+                            names = [x.strip().split("::")[-1] for x in cm.group(2).split(",") if x.strip()]
+                            if any(n not in enums[cm.group(1)] for n in names):
+                                die("%s:%d: %s lists a variant format.rs does not define" % (rel, l, fm.group(1)))
+                            site["cidx"] = (bm.group(1) + "@" + cm.group(1), max(enums[cm.group(1)].values()))
             sites.append(site)
     # recursion: a call of the innermost enclosing fn's own name
     for m in re.finditer(r"(?<![\w.:])(?:Self::|self\.)?([a-z_]\w*)\s*\(", text):
@@ -456,6 +511,16 @@ def gen_v(grps, sites):
     out.append("(* every index site whose index is an integer literal: (group, indexed expression, (number of sites, largest index)) *)")
     out.append("Definition const_index_sites : list (string * string * (nat * nat)) := [")
     out.append(";\n".join("  (%s, %s, (%d, %d))" % (q(k), q(b), n, mx) for (k, b), (n, mx) in sorted(ci.items())))
+    out.append("].")
+    # per index group: how many of its sites have a constant index (a group may be classified Covered "c01_const_indices_in_bounds" only if all have)
+    tot = {}
+    for s in sites:
+        if s["kind"] == "index":
+            a, c = tot.get(s["key"], (0, 0))
+            tot[s["key"]] = (a + 1, c + (1 if "cidx" in s else 0))
+    out.append("(* every index group: (group, (index sites, of which with a constant index)) *)")
+    out.append("Definition index_group_counts : list (string * (nat * nat)) := [")
+    out.append(";\n".join("  (%s, (%d, %d))" % (q(k), a, c) for k, (a, c) in sorted(tot.items())))
     out.append("].")
     return "\n".join(out) + "\n"
 
